@@ -339,6 +339,9 @@ Definition spec_dim (o : obs) (d : dim) (old : list bool) (kw : kwargs) : list b
   fold_left mand (spec_crit_masks o d kw) (if spec_reset kw d then ones (dimlen o d) else old).
 
 Definition is_cerr (c : cres) : bool := match c with CErr => true | _ => false end.
+(* every criterion of the dictionary can be evaluated (no exception) *)
+Definition all_ok (o : obs) (l : kwargs) : bool :=
+  forallb (fun kv => negb (is_cerr (crit o (fst kv) (snd kv)))) l.
 Definition atom0 (o : option value) : bool := match o with None | Some (VAtom 0) => true | _ => false end.
 Definition reset_wellformed (kw : kwargs) : bool :=
   match lookup "reset" kw with None | Some (VStr _) => true | _ => false end.
@@ -347,7 +350,7 @@ Definition spec_select (o : obs) (m : masks) (kw : kwargs) : res masks :=
   let strict := match lookup "strict" kw with Some v => truthy v | None => true end in
   if strict && existsb (fun p => negb (mem_string (fst p) doc_valid)) kw then Err ETypeError
   else if negb (atom0 (lookup "spw" kw) && atom0 (lookup "subarray" kw) && reset_wellformed kw) then Err EFail
-  else if existsb (fun p => is_cerr (crit o (fst p) (snd p))) kw then Err EFail
+  else if negb (all_ok o kw) then Err EFail
   else Ok {| m_t := spec_dim o DT (m_t m) kw; m_f := spec_dim o DF (m_f m) kw; m_b := spec_dim o DB (m_b m) kw |}.
 
 (* ------------------------------------------------------------------------------------------------ *)
